@@ -95,6 +95,8 @@ the conversion has failed.
 # This also applies to derived types which are bind(C).
 
 
+import copy
+
 from . import typemap
 from . import util
 
@@ -108,9 +110,21 @@ fstart = "! start "
 fend   = "! end "
 
 _newlibrary = None
+_initial_helpers = None
 def set_library(library):
-    global _newlibrary
+    """Start the helper tables of a library from the predefined helpers
+    only: helpers added for an earlier library in the same process
+    (per-class capsules, generated names) do not belong to this one.
+    """
+    global _newlibrary, _initial_helpers
     _newlibrary = library
+    if _initial_helpers is None:
+        _initial_helpers = (copy.deepcopy(CHelpers), copy.deepcopy(FHelpers))
+    else:
+        CHelpers.clear()
+        CHelpers.update(copy.deepcopy(_initial_helpers[0]))
+        FHelpers.clear()
+        FHelpers.update(copy.deepcopy(_initial_helpers[1]))
 
 
 def add_all_helpers():
